@@ -31,6 +31,9 @@ var c18Frags = []hostileFrag{
 	{"url-scheme-relative", "url(//evil.example/x)", false},
 	{"url-ftp", "url(ftp://evil.example/x)", false},
 	{"url-relative", "url(x.png)", false},
+	{"url-relative-http-prefixed-name", "url(httpx.png)", false},
+	{"url-http-without-authority", "url(http:evil.example/x)", false},
+	{"url-http-one-slash", "url(https:/evil.example/x)", false},
 	{"expression", "expression(alert(1))", false},
 	{"javascript-ref", "javascript:alert(1)", true},
 	{"data-ref", "data:text/html,x", true},
@@ -82,7 +85,7 @@ func runC18(ctx *core.Ctx) {
 	pool := gen.CSSTokenPool()
 	props := gen.CSSProperties
 	capSingles := ctx.N(18, 40)
-	capBases := ctx.N(200, 1200)
+	capBases := ctx.N(160, 1200)
 
 	// --- unknown properties reject everything ---------------------------------
 	unknown := []string{"behavior", "-moz-binding", "Color", "color ", " color", "colour", "COLOR", "background-image ", "x", "", "binding", "-ms-behavior", "src", "content", "unicode-range", "font-face", "expression", "zoom", "-webkit-mask-image", "mask", "clip-path", "will-change"}
@@ -114,7 +117,7 @@ func runC18(ctx *core.Ctx) {
 	})
 
 	// --- per handler ---------------------------------------------------------------
-	const shards = 4 // the insertion work of one handler is split over 4 cases (better load balance)
+	const shards = 12 // the insertion work of one handler is split over 4 cases (better load balance)
 	ctx.Run("handler", len(props)*shards, func(cs *core.Case) {
 		prop := props[cs.Index/shards]
 		shard := cs.Index % shards
